@@ -199,6 +199,15 @@ class BufEngine:
         def var(n, did):
             if did in st.vars:
                 v = st.vars[did]
+                if is_ptr(v) and getattr(self, 'ptr_truth', False):
+                    # a pointer in a null test: parameter pointers are symbols; the address of a local is non-null;
+                    # a pointer into the buffer is null exactly when the buffer is empty (AbstractArray::setPtr)
+                    if isinstance(v[1], tuple) and v[1][0] == 'param' and v[3] == Poly.const(0):
+                        return Poly.atom(('param', v[1][1]))
+                    if isinstance(v[1], tuple) and v[1][0] == 'local':
+                        return Poly.const(1)
+                    if v[1] == 'buf':
+                        return st.bufsize
                 return v if isinstance(v, Poly) else None
             p = self.params.get(did)
             if p is not None:
@@ -226,7 +235,7 @@ class BufEngine:
 
     # ---- unsigned arithmetic: a - b is the integer a - b only if b <= a
     def facts(self, st):
-        return list(st.inv) + [p for p, op in st.cons if op == '<=']
+        return list(st.inv) + [p for p, op in st.cons if op == '<='] + [q for p, op in st.cons if op == '==' for q in (p, -p)]
 
     def bounded_atoms(self, poly):
         """all atoms are unsigned quantities (members, buffer size, unsigned parameters)"""
@@ -265,6 +274,13 @@ class BufEngine:
         tu = self.tu
         ev = self.evaluator(st)
         rel = ev.rel(c) if c is not None else None
+        if rel is None and c is not None:
+            # null tests of pointer variables (`dst == nullptr`, `!src`)
+            self.ptr_truth = True
+            try:
+                rel = self.evaluator(st).rel(c)
+            finally:
+                self.ptr_truth = False
         res = []
 
         # the address of a local object is never null
@@ -1045,6 +1061,11 @@ def check_transfer_fn(ctx, tu, f, mode):
             # nothing copied: allowed only for a null pointer or an empty transfer
             memnull = (Poly.atom(('param', mp)), '==') in st.cons if mp else False
             empty = any(op in ('<=', '==') and p == L for p, op in st.cons)
+            if not empty and not st.opaque:
+                facts_ = list(st.inv) + [p_ for p_, op_ in st.cons if op_ == '<='] + \
+                    [q_ for p_, op_ in st.cons if op_ == '==' for q_ in (p_, -p_)]
+                ub_ = upper_bound(L, facts_, 2 ** 64 - 1)
+                empty = ub_ is not None and ub_ <= 0
             if not (memnull or empty):
                 lim = [c for c in st.cons if c[1] == '<=' and (c[0] - L).const_value() is not None]
                 if lim or not st.opaque:
